@@ -158,7 +158,73 @@ fn check_all(eg: &EGraph<LArith, A3>, rng: &mut Rng, out: &mut CaseOut) -> Resul
     Ok(())
 }
 
+/// rename the slot names of a term text: p, q and the generated binder names get other spellings
+fn rename_text(t: &str, style: usize) -> String {
+    if style == 0 {
+        return t.to_string();
+    }
+    let mut out = String::new();
+    let mut chars = t.chars().peekable();
+    while let Some(c) = chars.next() {
+        if c == '$' {
+            let mut name = String::new();
+            while let Some(d) = chars.peek() {
+                if d.is_alphanumeric() {
+                    name.push(*d);
+                    chars.next();
+                } else {
+                    break;
+                }
+            }
+            let k: u32 = name.bytes().fold(7u32, |h, b| h.wrapping_mul(31).wrapping_add(b as u32)) % 100_000;
+            let new = match style {
+                1 => format!("{}", 3 + k),              // numeric names
+                2 => format!("f{}", 1 + k),             // names that print like fresh slots
+                _ => format!("zz{}", 100_000 - k),      // textual, reverse order
+            };
+            out.push('$');
+            out.push_str(&new);
+        } else {
+            out.push(c);
+        }
+    }
+    out
+}
+
+/// C11 lane: analysis data must not depend on slot names - the same history under two namings gives the same data trace
+pub fn run_renamed_case(rng: &mut Rng) -> CaseOut {
+    let style = 1 + rng.below(3);
+    let mut r2 = rng.clone();
+    let (mut out, trace_a) = run_inner(rng, 0);
+    if !out.fails.is_empty() || out.inconclusive.is_some() {
+        return out;
+    }
+    // second run in a fresh thread (fresh slot table), same random choices, renamed slots
+    let h = std::thread::Builder::new().stack_size(128 << 20).spawn(move || run_inner(&mut r2, style)).unwrap();
+    let (out_b, trace_b) = h.join().unwrap();
+    out.inc("renamed_runs");
+    if let Some(f) = out_b.fails.first() {
+        out.fail(Fail::new("renaming-dependence", "failure-only-under-renaming", format!("naming style {style}: {}", f.detail), f.case.clone()));
+        return out;
+    }
+    if trace_a != trace_b {
+        let k = trace_a.iter().zip(trace_b.iter()).position(|(a, b)| a != b).unwrap_or(trace_a.len().min(trace_b.len()));
+        out.fail(Fail::new("renaming-dependence", "analysis-data", format!("naming style {style}: analysis data per handle / live classes differ at step {k}: {:?} vs {:?}", trace_a.get(k), trace_b.get(k)), out.sample.clone().unwrap_or(J::Null)));
+    }
+    out
+}
+
 pub fn run_case(rng: &mut Rng) -> CaseOut {
+    run_inner(rng, 0).0
+}
+
+fn run_inner(rng: &mut Rng, style: usize) -> (CaseOut, Vec<(usize, Vec<D3>)>) {
+    let mut trace: Vec<(usize, Vec<D3>)> = vec![];
+    let out = run_inner2(rng, style, &mut trace);
+    (out, trace)
+}
+
+fn run_inner2(rng: &mut Rng, style: usize, trace: &mut Vec<(usize, Vec<D3>)>) -> CaseOut {
     let mut out = CaseOut::default();
     CONFLICTS.with(|c| c.borrow_mut().clear());
     CALLS.with(|c| *c.borrow_mut() = (0, 0, 0));
@@ -185,7 +251,7 @@ pub fn run_case(rng: &mut Rng) -> CaseOut {
                 let mut scope = vec!["p".to_string(), "q".to_string()];
                 let mut fresh = step * 100;
                 let d = rng.range(1, 3);
-                let t = gen_arith(rng, d, &mut scope, &mut fresh, false);
+                let t = rename_text(&gen_arith(rng, d, &mut scope, &mut fresh, false), style);
                 desc = format!("add {t}");
                 let id = eg.add_expr(RecExpr::parse(&t).unwrap());
                 handles.push((id, t));
@@ -201,6 +267,9 @@ pub fn run_case(rng: &mut Rng) -> CaseOut {
                     4 => format!("(let $z{step} (var $z{step}) {t})"),
                     _ => format!("(add (mul 0 (var $p)) {t})"),
                 };
+                // (`t` is already renamed; rename only the freshly written names)
+                let v = if style == 0 { v } else { v.replace(&t, "\u{1}") };
+                let v = rename_text(&v, style).replace("\u{1}", &t);
                 // a parent over the bigger variant first, so that the union lowers a child's datum afterwards
                 let parent = format!("(mul 2 {v})");
                 desc = format!("add {parent}; union {t} = {v}");
@@ -269,6 +338,7 @@ pub fn run_case(rng: &mut Rng) -> CaseOut {
                 return out;
             }
         }
+        trace.push((eg.ids().len(), handles.iter().map(|(h, _)| *eg.analysis_data(h.id)).collect()));
         let (n, bad) = structural_invariants(&eg);
         out.add("invariant_checks", n);
         if let Some((sig, d)) = bad {
@@ -300,5 +370,9 @@ pub fn run_case(rng: &mut Rng) -> CaseOut {
 }
 
 pub fn run(args: &Args, rep: &mut Rep) {
-    drive(args, rep, |rng, _| run_case(rng));
+    if args.param_u("renamed", 0) == 1 {
+        drive(args, rep, |rng, _| run_renamed_case(rng));
+    } else {
+        drive(args, rep, |rng, _| run_case(rng));
+    }
 }
